@@ -53,7 +53,8 @@ def hash_calls(block):
 def keccak_calls():
     return [one("k(abc)", lambda k: k(M1)), one("k(200B)", lambda k: k(M2)), one("k(abc,bitlen=21)", lambda k: k(M1, bitlen=21)),
             one("k(abc,r=1024) per-call rate", lambda k: k(M1, r=1024)), one("k(abc,bitlen=100)->error", lambda k: k(M1, bitlen=100)),
-            one("k(200B,r=8)", lambda k: k(M2[:20], r=8)),
+            one("k(200B,r=8)", lambda k: k(M2[:20], r=8)), one("k(abc,r=b)->error", lambda k: k(M1, r=k.b)),
+            one("k(abc,r=1537)->error", lambda k: k(M1, r=1537)),
             hist("duplex(1 bit)", lambda k: k.duplex(b"\x01", bitlen=1, outlen=8))]
 
 
